@@ -583,7 +583,8 @@ func (session *HermesSession) Run(workingDir string, args []string, logID string
 			// ************ END OF SOWING MODULE ************
 			var STEPS float64
 			if WDT < g.DT.Num {
-				STEPS = g.DT.Num / WDT
+				// WDT is 1/n for an integer n; the quotient is n only up to rounding (1/(1/93) = 92.99999999999999)
+				STEPS = math.Round(g.DT.Num / WDT)
 			} else {
 				STEPS, WDT = 1, 1
 			}
